@@ -58,6 +58,28 @@ def check(prog, rep, tier):
                 expected='the result dictionary', key='Open.parse')
     else:
         rep.ok('R14.a', 'Open.parse', file=f.file, line=f.node.lineno, found='%d normal path(s)' % nval)
+    # acceptance ranges of the fixed fields: the decoder itself restricts version (4) and rejects AS 0 / identifier
+    # 0; every hold time 0..65535 decodes (the negotiation, not the codec, refuses 1 and 2)
+    hold_iv = []
+    for k, v, s in outs:
+        for nm, info in s.syminfo.items():
+            if info[0] == '!BHHIB' and info[1] == 2:
+                lo_, hi_, ne_ = s.interval(nm)
+                hold_iv.append((k, lo_, hi_, ne_))
+    narrowed = [x for x in hold_iv if (x[1], x[2]) != (0, 65535) or x[3]]
+    if not hold_iv:
+        rep.undecided('R14.a', 'Open.parse:hold-time-range', found='hold-time field not found in any outcome')
+    elif narrowed:
+        k, lo_, hi_, ne_ = narrowed[0]
+        rep.bad('R14.a', 'Open.parse:hold-time-range', file=f.file, line=f.node.lineno, func=f.qualname,
+                found='Open.parse distinguishes hold times: an outcome (%s) is reached only for hold time in [%s, %s]%s; '
+                      'every value 0..65535 is a legal field value and must decode' % (
+                          'exception' if k == 'raise' else 'result', lo_, hi_,
+                          (' except %s' % sorted(ne_)) if ne_ else ''),
+                expected='no test of the hold time in the codec', key='Open.parse:hold-time-range')
+    else:
+        rep.ok('R14.a', 'Open.parse:hold-time-range', file=f.file, line=f.node.lineno,
+               found='%d outcome(s), hold time unconstrained in all' % len(hold_iv))
     for qual, n in (('yabgp.message.notification.Notification.parse', 3),
                     ('yabgp.message.route_refresh.RouteRefresh.parse', 3)):
         fn = prog.func(qual)
